@@ -29,7 +29,12 @@ func TestConcurrentSavedCase(t *testing.T) {
 	n := vh.Scale(1500, 30000)
 	bad, first := 0, ""
 	for i := 0; i < n; i++ {
-		if res := run(doc.Case); res.Violation != "" {
+		cs := doc.Case
+		if i%2 == 1 {
+			// every other repetition with a yield pattern (a function of the repetition number) in the update prologues
+			cs.Yields = []int{i % 3, (i / 3) % 4, (i / 12) % 2, 0, (i / 24) % 5}
+		}
+		if res := run(cs); res.Violation != "" {
 			bad++
 			if first == "" {
 				first = res.Violation
@@ -42,4 +47,44 @@ func TestConcurrentSavedCase(t *testing.T) {
 		res.Signature = "concurrent:saved-case"
 	}
 	vh.Fixed(t, prop, "saved-27-role-tree-concurrent", doc.Case, func(Case) vh.Result { return res })
+}
+
+// TestConcurrentDeployment repeats the status side of a deployment: every task of a small tree reports ACTIVE at the same time
+// (the task manager handles each Mesos status update in a goroutine of its own), under yield patterns that hold one update in
+// its parent's prologue while the others run to the root. At quiescence every role must be ACTIVE.
+func TestConcurrentDeployment(t *testing.T) {
+	tree := &Node{Name: "root", Kind: "agg", Children: []*Node{
+		{Name: "a", Kind: "agg", Children: []*Node{
+			{Name: "s", Kind: "agg", Children: []*Node{{Name: "t1", Kind: "task", Critical: true}, {Name: "t2", Kind: "task", Critical: true}}},
+			{Name: "t3", Kind: "task", Critical: false}}},
+		{Name: "b", Kind: "agg", Children: []*Node{{Name: "t4", Kind: "task", Critical: true}, {Name: "t5", Kind: "task", Critical: true}}},
+	}}
+	base := Case{Tree: tree, Concurrent: true, Perm: []int{1}}
+	for i := 0; i < 5; i++ {
+		base.Updates = append(base.Updates, Update{Leaf: i, What: "status", Value: "ACTIVE"})
+	}
+	n := vh.Scale(3000, 60000)
+	bad, first := 0, ""
+	var firstCase Case
+	for i := 0; i < n; i++ {
+		cs := base
+		// one long stay (100-300 us) among short ones, at a position that moves with the repetition number
+		pat := make([]int, 5+i%4)
+		pat[i%len(pat)] = 5 + (i/7)%11
+		cs.Yields = pat
+		if res := run(cs); res.Violation != "" {
+			bad++
+			if first == "" {
+				first, firstCase = res.Violation, cs
+			}
+		}
+	}
+	res := vh.Result{NonTrivial: true, Classes: []string{"concurrent", "deployment-status-repeated"}}
+	if bad > 0 {
+		res.Violation = fmt.Sprintf("%d of %d concurrent deployments ended inconsistent; first: %s", bad, n, first)
+		res.Signature = "concurrent:deployment-status"
+	} else {
+		firstCase = base
+	}
+	vh.Fixed(t, prop, "five-tasks-report-active-at-once", firstCase, func(Case) vh.Result { return res })
 }
